@@ -737,9 +737,9 @@ def exhaustive_families():
         # explicit tx.commit() / tx.rollback() in the middle of a body: the locks are given back, later writes take them again
         fams.append((f"{mode}: incr; tx.commit(); incr against an incrementing call (the lock changes hands between the two segments)",
                      {}, [tx(mode, [["incr", 0, 1], ["commit"], ["incr", 0, 1]], "ctx", 40), tx(mode, [["incr", 0, 5]], "dec", 40)], True))
-        fams.append((f"{mode}: incr; tx.rollback(); incr; set of a second key against a call writing both keys",
+        fams.append((f"{mode}: incr; tx.rollback(); incr; set of a second key against an incrementing call",
                      {0: 1}, [tx(mode, [["incr", 0, 1], ["rollback"], ["incr", 0, 2], ["set", 1, 7]], "ctx", 40),
-                              tx(mode, [["set", 1, 3], ["incr", 0, 10]], "dec", 40)], mode != "locked"))
+                              tx(mode, [["incr", 0, 10]], "dec", 40)], True))
         fams.append((f"{mode}: delete + set, tx.commit() inside a nested block, then a raising tail, against a plain reader",
                      {0: 1, 1: 2}, [tx(mode, [["del", 1], ["set", 0, 4], ["nin", "ctx"], ["commit"], ["nout"], ["incr", 0, 1], ["raise"]], "dec", 40),
                                     plain([["get", 0], ["get", 1]])], True))
